@@ -74,6 +74,9 @@ def callOp (hack full : Bool) (kind : String) (c : CallSt) (ws : List String) : 
       | (c1, .ok (n, out)) => (some (kind, c1), bytesRes n out)
       | (_, .error (.panic _)) => (none, "fault panic")
       | (c1, .error f) => (some (kind, c1), showFault f)
+  | "callRecvBody", ["cstopb", b] => some (some (kind, { c with stopBoundary := b == "1" }), "unit")
+  | "callRecvBody", ["cboundary"] =>
+      some (some (kind, c), s!"bool {match c.reader with | some (.chunked d) => d == Dechunker.size | _ => false}")
   | "callRecvBody", ["cended"] =>
       match c.reader with
       | some rd => some (some (kind, c), s!"bool {readerEnded rd}")
@@ -104,7 +107,7 @@ def adoptFollow (fl : Flow) (pol : String) (m u : String) : Option Flow :=
     let next := Flow.new m' fl.call.req.version fl.call.req.uri fl.call.req.orig
     let prev := fl.call.req
     let keep := (pol == "samehost") && (prev.uri.host == u'.host && (prev.uri.scheme == u'.scheme || u'.scheme == "https"))
-    let unset := (if keep then [] else ["authorization"]) ++ ["cookie", "content-length"]
+    let unset := unsetList keep (keepHostHeader prev.uri u')
     some { next with call := { next.call with req := { next.call.req with uriOverride := some u', unset := unset } } }
   | _, _ => none
 
@@ -175,6 +178,23 @@ def stepLine0 (s : Sess) (l : String) : Sess × String :=
             ({ s with flow := some fl2 }, s!"{opText} => {txt} @redirect")
           | .fault (.panic _) => (s.gone, s!"{opText} => fault panic first-some={firstSome} @gone")
           | .outOfClass => (s.gone, s!"{l} #out-of-class")
+      | none => (s, s!"{opText} => str not-offered @gone")
+    | ["hmap"] =>
+      -- Flow<SendRequest>::headers_map(): analyse the request (as the first write would), then one value per
+      -- name — the last one among the effective headers — sorted by name
+      match s.flow with
+      | some fl =>
+        if fl.st != .sendRequest then (s, s!"{opText} => str not-offered @{stName fl.st}") else
+        (match fl.call.analyzeRequest with
+         | (c1, .ok ()) =>
+           let hs := c1.req.headers
+           let names := (hs.map (·.name)).eraseDups
+           let sorted := names.toArray.qsort (· < ·) |>.toList
+           let body := sorted.map fun n => match (hs.filter (·.name == n)).getLast? with
+             | some h => s!" {n} {toHex h.value}" | none => ""
+           ({ s with flow := some { fl with call := c1 } }, s!"{opText} => map {sorted.length}{String.join body} @sendRequest")
+         | (c1, .error (.panic _)) => (s.gone, s!"{opText} => fault panic @gone")
+         | (c1, .error f) => ({ s with flow := some { fl with call := c1 } }, s!"{opText} => {showFault f} @sendRequest"))
       | none => (s, s!"{opText} => str not-offered @gone")
     | ["uri?"] =>
       match s.flow with
